@@ -684,9 +684,9 @@ def gen_lean(M, classified):
             continue
         plain = sorted(set(M.fidx[e[0]] for e in es if not e[1] and not e[2]))
         prot = sorted(set((M.fidx[e[0]], e[1], e[2]) for e in es if e[1] or e[2]))
-        if plain:
+        for i in range(0, len(plain), 24):      # short codes: kernel arithmetic on them stays cheap
             n = 0
-            for d in reversed([M.fidx[u] + 1] + [c + 1 for c in plain]):
+            for d in reversed([M.fidx[u] + 1] + [c + 1 for c in plain[i:i + 24]]):
                 n = n * 8192 + d
             codes.append(hex(n))
         if prot:
